@@ -1001,7 +1001,11 @@ class IMAPClientCommand:
         ref_text = ref_input[: len(ref_input) - len(self.input)]
         self.list_reference = self.mailbox_name
         if ref_text.endswith(("/", '/"')) and self.mailbox_name not in ("", "/"):
-            self.list_reference += "/"
+            # A level of hierarchy, not the name of a mailbox: "INBOX/" + "%"
+            # is the pattern "INBOX/%", whatever that matches; only the
+            # whole name INBOX is the inbox.
+            #
+            self.list_reference = self._mailbox_as_given + "/"
         self._p_simple_string(" ")
 
         # Mailbox pattern(s): either a single list-mailbox or a
@@ -2017,16 +2021,17 @@ class IMAPClientCommand:
         MUST be interpreted as INBOX not as an astring.  Refer to section 5.1
         for further semantic details of mailbox names.
         """
-        # We must match the case insensitive string 'mailbox' first because
-        # our other mailbox names are case sensitive.
+        # Only the whole name, compared without regard to case, is INBOX:
+        # "inboxes" is some other mailbox and so is "inbox/sub". The name may
+        # be given as an atom, a quoted string or a literal.
         #
-        mbox_name = self._p_simple_string("inbox", silent=True)
-        if mbox_name is None:
-            mbox_name = self._p_astring()
+        mbox_name = self._p_astring()
         if mbox_name != "":
-            return os.path.normpath(mbox_name)
-        else:
-            return mbox_name
+            mbox_name = os.path.normpath(mbox_name)
+        self._mailbox_as_given = mbox_name
+        if mbox_name.lower() == "inbox":
+            return "inbox"
+        return mbox_name
 
     #######################################################################
     #
